@@ -464,6 +464,11 @@ class PSBaseParser:
             self._parse1 = self._parse_string_2
             return i + 1
 
+        elif c != b"\n":
+            # A backslash before any other character is ignored, the
+            # character itself is kept (PDF 32000-1 7.3.4.2)
+            self._curtoken += c
+
         # default action
         self._parse1 = self._parse_string
         return i + 1
